@@ -13,7 +13,7 @@ EO = ["every WaitUntilComplete call returns once all started processes have comp
 
 
 def sc(entry, name, bounds, tiers=("quick", "thorough"), K=70):
-    return dict(name=name, entry=entry, K=K, reach=["quiescent"], overrides=OV, tiers=tiers, expect_obligations=EO, bounds=bounds)
+    return dict(name=name, entry=entry, K=K, reach=["quiescent"], overrides=OV, tiers=tiers, expect_obligations=EO, bounds=bounds, native=False)
 
 
 SCENARIOS = [
